@@ -5,7 +5,8 @@ package policer
 // Property C22 (policer part): the node order in which the Policer offers a
 // RECREATED EC part to the replicator is the part's own node sequence.
 //
-// An EC object (rule d/p, d 1..4, p 1..3) is spread over a sorted node list;
+// An EC object (rule d/p, d 1..4, p 1..3) is spread over the sorted node list of
+// its EC rule (rule index 0..1, preceded by 0..2 REP rules with their own lists);
 // 1..p parts are lost. The holder of another part runs the real
 // Policer.processObject on its part: checkECParts HEADs the siblings, fetches
 // the surviving payloads, decodes the lost parts and hands each of them to the
@@ -288,12 +289,33 @@ func TestVerifC22PolicerRecreate(t *testing.T) {
 			lists = [][]netmap.NodeInfo{decoy, w.sorted}
 			rules = []iec.Rule{{DataPartNum: 2, ParityPartNum: 1}, w.rule}
 		}
+		// 0-2 REP rules in front of the EC rules, each with its own node list made of
+		// identities that are not in the EC rule's list
+		nRep := rapid.SampledFrom([]int{0, 1, 1, 2}).Draw(t, "repLists")
+		var repRules []uint
+		if nRep > 0 {
+			var repLists [][]netmap.NodeInfo
+			for r := 0; r < nRep; r++ {
+				ln := rapid.IntRange(1, 2*total).Draw(t, "repLen")
+				l := make([]netmap.NodeInfo, ln)
+				for i := range l {
+					if j := n + r*total + i; j < c22MaxNodes && rapid.Bool().Draw(t, "repFromPool") {
+						l[i] = all[perm[j]]
+					} else {
+						l[i] = c22NodeInfo(200 + r*50 + i)
+					}
+				}
+				repLists = append(repLists, l)
+				repRules = append(repRules, uint(rapid.IntRange(1, min(3, ln)).Draw(t, "rep")))
+			}
+			lists = append(repLists, lists...)
+		}
 		parentAddr := oid.NewAddress(w.parent.GetContainerID(), w.parent.GetID())
 		net := &c22Net{localKey: w.sorted[w.local].PublicKey(), place: func(a oid.Address) ([][]netmap.NodeInfo, []uint, []iec.Rule, error) {
 			if a != parentAddr {
 				panic("verif: placement requested for " + a.String())
 			}
-			return lists, nil, rules, nil
+			return lists, repRules, rules, nil
 		}}
 		repl := &c22Repl{}
 		pol := New(signer, WithNetwork(net), WithLogger(zap.NewNop()))
@@ -309,8 +331,8 @@ func TestVerifC22PolicerRecreate(t *testing.T) {
 			ShardIDs:   []string{"shard0"},
 		})
 
-		desc := fmt.Sprintf("EC %d/%d rule#%d nodes=%d lost=%v local part %d on node %d holders=%v", d, p, w.ruleIdx, n, lost, localPart, w.local, w.holder)
-		labels := []string{"total-" + strconv.Itoa(total)}
+		desc := fmt.Sprintf("EC %d/%d rule#%d after %d REP list(s) %v nodes=%d lost=%v local part %d on node %d holders=%v", d, p, w.ruleIdx, nRep, repRules, n, lost, localPart, w.local, w.holder)
+		labels := []string{"total-" + strconv.Itoa(total), "rep-lists-" + strconv.Itoa(nRep)}
 		if n < total {
 			labels = append(labels, "nodes<total")
 		} else if n == total {
